@@ -221,6 +221,21 @@ def build_workbook(spec):
             wb.defined_names.append(dn)
         else:
             wb.defined_names[name] = dn
+    for tab in spec.get('tables', ()):
+        # dict(sheet=, name=, ref=): an Excel table; its first row holds the
+        # column headers
+        from openpyxl.worksheet.table import Table
+        ws = wb[tab['sheet']]
+        table = Table(displayName=tab['name'], ref=tab['ref'])
+        # (openpyxl names the columns only when the file is written)
+        table._initialise_columns()
+        header = next(ws.iter_rows(
+            min_row=ws[tab['ref']][0][0].row, max_row=ws[tab['ref']][0][0].row,
+            min_col=ws[tab['ref']][0][0].column,
+            max_col=ws[tab['ref']][0][-1].column))
+        for column, cell in zip(table.tableColumns, header):
+            column.name = str(cell.value)
+        ws.add_table(table)
     it = spec.get('iterate')
     if it:
         wb.calculation.iterate = True
